@@ -28,6 +28,7 @@ type c16Case struct {
 	NRcpt  int     `json:"nrcpt"`
 	WT     bool    `json:"wt"`     // Server.WriteTimeout set (ReadTimeout unset) and "time passes" during the body: any read deadline the server armed is fired
 	Second bool    `json:"second"` // a second message with other recipients follows on the same connection
+	CT     bool    `json:"ct"`     // "time passes" on the client side while the body is being written: any deadline the client left armed on its connection is fired
 }
 
 func init() {
@@ -41,7 +42,7 @@ func c16Run(ctx *core.Ctx) {
 	if ctx.Thorough() {
 		maxTok, nRand = 9, 400000
 	}
-	ctx.Rule = fmt.Sprintf("bodies exhaustive over the tokens {'.', LF, CRLF, 'x'} up to %d tokens plus %d seeded 8-bit bodies (CR only inside CRLF) x partitions into Write calls {whole, octet-by-octet, every 2-split (rotating), seeded} x server verdict {accept, reject with token} x {SMTP, LMTP} x 1..3 recipients; real smtp.Client against the real server; Close is called twice. Non-trivial: the body contains a '.' at a line start or a bare LF; distinct by case.", maxTok, nRand)
+	ctx.Rule = fmt.Sprintf("bodies exhaustive over the tokens {'.', LF, CRLF, 'x'} up to %d tokens plus %d seeded 8-bit bodies (CR only inside CRLF) x partitions into Write calls {whole, octet-by-octet, every 2-split (rotating), seeded} x server verdict {accept, reject with token} x {SMTP, LMTP} x 1..3 recipients; real smtp.Client against the real server; Close is called twice; in a third of the cases virtual time passes on the client's connection in the middle of the body (every deadline still armed there expires), in a fifth on the server's. Non-trivial: the body contains a '.' at a line start or a bare LF; distinct by case.", maxTok, nRand)
 	ctx.Assumptions = []string{"the empty body is not judged", "reference = ref.DotWriterNormalise (bare LF -> CRLF, final CRLF ensured)"}
 	core.RunCases(ctx, func(emit func(c16Case)) {
 		idx := 0
@@ -63,7 +64,7 @@ func c16Run(ctx *core.Ctx) {
 			}
 			for pi, pt := range parts {
 				c := c16Case{Body: body, BodyQ: fmt.Sprintf("%q", body), Part: pt, Reject: (idx+pi)%2 == 0, Mode: mode, NRcpt: 1 + idx%3,
-					WT: (idx+pi)%5 == 2, Second: (idx+pi)%4 == 1}
+					WT: (idx+pi)%5 == 2, Second: (idx+pi)%4 == 1, CT: (idx+pi)%3 == 1}
 				switch pt {
 				case "split":
 					if len(body) < 2 {
@@ -116,7 +117,7 @@ func c16Exec(ctx *core.Ctx, c c16Case) {
 			nontrivial = true
 		}
 	}
-	ctx.Eval(fmt.Sprintf("%q|%s|%d|%v|%v|%s|%d|%v|%v", c.Body, c.Part, c.At, c.Cuts, c.Reject, c.Mode, c.NRcpt, c.WT, c.Second), nontrivial)
+	ctx.Eval(fmt.Sprintf("%q|%s|%d|%v|%v|%s|%d|%v|%v|%v", c.Body, c.Part, c.At, c.Cuts, c.Reject, c.Mode, c.NRcpt, c.WT, c.Second, c.CT), nontrivial)
 	rig := newRig(c.Mode, func(s *smtp.Server) {
 		if c.WT {
 			s.WriteTimeout = time.Hour // virtual clock: never expires by itself
@@ -200,6 +201,13 @@ func c16Exec(ctx *core.Ctx, c c16Case) {
 			p.Raw.WaitPeerIdle(wire.Watchdog)
 			if p.SrvEnd.FireReadDeadline() {
 				rig.Log.Act("a read deadline was armed although ReadTimeout is 0; fired it")
+			}
+		}
+		if c.CT && si == len(segs)/2 {
+			// the upload takes longer than CommandTimeout: the deadline of the DATA command
+			// exchange must not still be armed on the client's connection
+			if p.Raw.FireDeadlines() {
+				rig.Log.Act("the client left a deadline armed while the body is written; fired it")
 			}
 		}
 		if _, err := w.Write(s); err != nil {
